@@ -1,15 +1,10 @@
-// vh is the single harness binary: `vh run <Cnn> <quick|thorough>` supervises a check,
-// `vh worker ...` is the child it re-executes, `vh list` prints the registered properties.
-package main
+package rig
 
 import (
 	"encoding/json"
 	"fmt"
 	"os"
 	"strconv"
-
-	"verif/engines"
-	"verif/rig"
 )
 
 func seedFromEnv() int64 {
@@ -21,19 +16,26 @@ func seedFromEnv() int64 {
 	return 1
 }
 
-func main() {
-	engines.RegisterAll()
+// Main is the main function of every engine binary:
+//
+//	<engine> run <Cnn> <quick|thorough>     supervise a check
+//	<engine> replay <Cnn> <file>            re-run the seed/tier recorded in a replay file
+//	<engine> worker <Cnn> <stage> <tier> <seed>   (internal) worker child
+//	<engine> needs-race <Cnn> | list
+//	<engine> <subcommand> ...               helper processes registered in SubCommands
+func Main(register func()) {
+	register()
 	if len(os.Args) < 2 {
-		fmt.Fprintln(os.Stderr, "usage: vh run <prop> <tier> | vh replay <prop> <file> | vh list")
+		fmt.Fprintln(os.Stderr, "usage: run <prop> <tier> | replay <prop> <file> | list")
 		os.Exit(2)
 	}
 	switch os.Args[1] {
 	case "list":
-		for _, p := range rig.Props() {
+		for _, p := range Props() {
 			fmt.Println(p)
 		}
 	case "needs-race":
-		s := rig.Lookup(os.Args[2])
+		s := Lookup(os.Args[2])
 		if s != nil {
 			for _, st := range s.Stages {
 				if st.Race && st.Fn != nil {
@@ -48,7 +50,7 @@ func main() {
 		if len(os.Args) > 3 {
 			tier = os.Args[3]
 		}
-		os.Exit(rig.Supervise(os.Args[2], tier, seedFromEnv()))
+		os.Exit(Supervise(os.Args[2], tier, seedFromEnv()))
 	case "replay":
 		b, err := os.ReadFile(os.Args[3])
 		if err != nil {
@@ -60,13 +62,12 @@ func main() {
 			Seed int64  `json:"seed"`
 		}
 		json.Unmarshal(b, &r)
-		os.Exit(rig.Supervise(os.Args[2], r.Tier, r.Seed))
+		os.Exit(Supervise(os.Args[2], r.Tier, r.Seed))
 	case "worker":
 		seed, _ := strconv.ParseInt(os.Args[5], 10, 64)
-		os.Exit(rig.WorkerMain(os.Args[2], os.Args[3], os.Args[4], seed))
+		os.Exit(WorkerMain(os.Args[2], os.Args[3], os.Args[4], seed))
 	default:
-		// engine-specific sub-commands (helper processes spawned by monitors)
-		if fn, ok := rig.SubCommands[os.Args[1]]; ok {
+		if fn, ok := SubCommands[os.Args[1]]; ok {
 			os.Exit(fn(os.Args[2:]))
 		}
 		fmt.Fprintln(os.Stderr, "unknown command", os.Args[1])
